@@ -10,11 +10,15 @@ import (
 	"sort"
 	"strconv"
 	"strings"
+	"sync"
+	"sync/atomic"
 	"time"
 
 	"github.com/hashicorp/go-hclog"
 	"github.com/hashicorp/raft"
 	wal "github.com/hashicorp/raft-wal"
+	"github.com/hashicorp/raft-wal/fs"
+	"github.com/hashicorp/raft-wal/metadb"
 	"github.com/hashicorp/raft-wal/metrics"
 	"github.com/hashicorp/raft-wal/segment"
 	"github.com/hashicorp/raft-wal/types"
@@ -56,9 +60,50 @@ type walImpl struct {
 	w       *wal.WAL
 	coll    *metrics.AtomicCollector
 	segSize int
+	gate    rotGate
+	dead    bool // a call never returned: the WAL object is abandoned for the rest of the case
+	shut    bool // the WAL has been closed (close, or a reopen whose Open failed) and not opened again
+}
+
+// unsettledOnDisk: the WAL was shut down while the rotation queued by a sealing append had not run — on disk the tail
+// file is sealed, the meta store still has it as the unsealed tail. The sequential model rotates inside the append; the
+// two agree again once the next Open has completed the rotation. Until then the directory is not compared.
+func (s *walImpl) unsettledOnDisk() bool {
+	var ps types.PersistentState
+	var filer *segment.Filer
+	if s.disk != nil {
+		ps = s.disk.MetaState()
+		filer = segment.NewFiler("d", s.disk)
+	} else {
+		db := &metadb.BoltMetaDB{}
+		st, err := db.Load(s.realDir)
+		db.Close()
+		if err != nil {
+			return false
+		}
+		ps = st
+		filer = segment.NewFiler(s.realDir, fs.New())
+	}
+	if len(ps.Segments) == 0 {
+		return false
+	}
+	si := ps.Segments[len(ps.Segments)-1]
+	if !si.SealTime.IsZero() {
+		return false
+	}
+	sw, err := filer.RecoverTail(si)
+	if err != nil {
+		return false
+	}
+	defer sw.Close()
+	sealed, _, err := sw.Sealed()
+	return err == nil && sealed
 }
 
 func (s *walImpl) cleanup() {
+	// open the gate and take the hook out: rotation goroutines of later cases must not meet this case's gate
+	s.gate.release()
+	wal.SetVerifYield(nil)
 	if s.w != nil {
 		s.w.Close()
 	}
@@ -115,6 +160,87 @@ func logTok(l *raft.Log) string {
 	return fmt.Sprintf("%d:%d:%d:%s:%s:%s", l.Index, l.Term, uint8(l.Type), hx(l.Data), hx(l.Extensions), th)
 }
 
+// rotGate: "late" makes the background rotation of the next append late — the rotation goroutine is parked before it
+// takes the write lock while the call after the append runs (a DeleteRange, a Close, another append: callers do not
+// wait for the rotation); it is let go as soon as that call is seen waiting for it, or has returned.
+// timedExec runs one op of the real WAL with a deadline: a call that never returns (a writer waiting for a rotation that
+// will never happen, …) is an answer — "blocked" — not a hang of the suite; the WAL object is abandoned afterwards.
+func (s *walImpl) timedExec(op string) string {
+	if s.dead {
+		if strings.HasPrefix(op, "case") {
+			s.dead = false
+		} else {
+			return "err dead-after-blocked-call"
+		}
+	}
+	done := make(chan string, 1)
+	go func() { done <- safeExec(func() string { return s.exec(op) }) }()
+	select {
+	case o := <-done:
+		return o
+	case <-time.After(blockDeadline()):
+		atomic.AddInt32(&blockedCalls, 1)
+		s.dead = true
+		s.gate.release()
+		s.w = nil
+		return "blocked"
+	}
+}
+
+var blockedCalls int32
+
+// blockDeadline: generous for the first few calls that never return, short once the run has established that calls block
+// (a broken tree must not stretch the run to hours)
+func blockDeadline() time.Duration {
+	if atomic.LoadInt32(&blockedCalls) >= 3 {
+		return 1500 * time.Millisecond
+	}
+	return 10 * time.Second
+}
+
+type rotGate struct {
+	mu       sync.Mutex
+	armed    bool            // "late" seen: the next append's rotation is to be held
+	holdNext bool            // the append has been issued: hold the next rotation goroutine that shows up
+	holding  bool            // a held rotation may be pending: the next call races with it
+	parked   []chan struct{} // one per held rotation goroutine; closed to let it go
+}
+
+func (g *rotGate) letGoLocked() {
+	for _, ch := range g.parked {
+		close(ch)
+	}
+	g.parked = nil
+}
+
+func (g *rotGate) hook(point string) {
+	g.mu.Lock()
+	switch point {
+	case "runRotate:before-lock":
+		if g.holdNext {
+			// every rotation goroutine that shows up while the gate is shut is held — also one of an earlier, closed WAL
+			// that is only now on its way out (it must not use up the hold meant for this append's rotation)
+			ch := make(chan struct{})
+			g.parked = append(g.parked, ch)
+			g.mu.Unlock()
+			<-ch
+			return
+		}
+	case "awaitRotation:before-receive":
+		// somebody waits for the rotation: let it run — also when its goroutine has not reached the gate yet
+		g.holdNext = false
+		g.letGoLocked()
+	}
+	g.mu.Unlock()
+}
+
+func (g *rotGate) release() {
+	g.mu.Lock()
+	g.letGoLocked()
+	g.holding, g.holdNext = false, false
+	g.mu.Unlock()
+}
+
 func (s *walImpl) exec(op string) (out string) {
 	defer func() {
 		if r := recover(); r != nil {
@@ -123,11 +249,39 @@ func (s *walImpl) exec(op string) (out string) {
 	}()
 	ws := strings.Fields(op)
 	if ws[0] == "case" {
+		s.gate.release()
 		return "case"
+	}
+	if ws[0] == "late" {
+		if s.w == nil {
+			return "err nowal"
+		}
+		s.gate.mu.Lock()
+		s.gate.armed = true
+		s.gate.mu.Unlock()
+		wal.SetVerifYield(s.gate.hook)
+		return "ok"
+	}
+	if s.gate.holding && (ws[0] == "files" || ws[0] == "meta" || ws[0] == "fmtcheck") {
+		// observations of the directory at rest: the held rotation is let go and waited for first
+		s.gate.release()
+		if s.w != nil {
+			s.w.DeleteRange(math.MaxUint64, math.MaxUint64)
+		}
+	}
+	if s.gate.holding && ws[0] != "store" {
+		// the call that races with the held rotation; afterwards the rotation is let go and waited for
+		defer func() {
+			s.gate.release()
+			if s.w != nil {
+				s.w.DeleteRange(math.MaxUint64, math.MaxUint64)
+			}
+		}()
 	}
 	if ws[0] == "open" {
 		s.segSize = int(atoiU(ws[1]))
 		s.coll = metrics.NewAtomicCollector(wal.MetricDefinitions)
+		s.shut = false
 		if err := s.open(atoiU(ws[2])); err != nil {
 			return walClass(err)
 		}
@@ -136,13 +290,26 @@ func (s *walImpl) exec(op string) (out string) {
 	if s.w == nil {
 		return "err nowal"
 	}
+	if s.shut && (ws[0] == "files" || ws[0] == "meta" || ws[0] == "fmtcheck") && s.unsettledOnDisk() {
+		return "unsettled"
+	}
 	switch ws[0] {
 	case "store":
 		var logs []*raft.Log
 		for _, t := range ws[1:] {
 			logs = append(logs, parseLogTok(t))
 		}
+		s.gate.mu.Lock()
+		late := s.gate.armed
+		if late {
+			s.gate.armed, s.gate.holding, s.gate.holdNext = false, true, true
+		}
+		s.gate.mu.Unlock()
 		err := s.w.StoreLogs(logs)
+		if late {
+			return walClass(err) // no barrier: the next call meets the queued rotation
+		}
+		s.gate.release()
 		// barrier: wait for a background rotation triggered by this append
 		s.w.DeleteRange(math.MaxUint64, math.MaxUint64)
 		return walClass(err)
@@ -180,12 +347,15 @@ func (s *walImpl) exec(op string) (out string) {
 	case "barrier":
 		return walClass(s.w.DeleteRange(math.MaxUint64, math.MaxUint64))
 	case "close":
+		s.shut = true
 		return walClass(s.w.Close())
 	case "reopen":
 		s.w.Close()
+		s.shut = true
 		if err := s.open(atoiU(ws[1])); err != nil {
 			return walClass(err)
 		}
+		s.shut = false
 		return "ok"
 	case "set":
 		var v []byte
@@ -232,6 +402,60 @@ func (s *walImpl) exec(op string) (out string) {
 		}
 		sort.Strings(names)
 		return strings.Join(names, " ")
+	case "fmtcheck":
+		// README layout of every segment file the meta store names (simfs runs): header magic/base/id/codec as named;
+		// a sealed segment has an index frame header directly before IndexStart and its commit frames check; the tail's
+		// commit frames check
+		if s.disk == nil {
+			return "ok"
+		}
+		ps := s.disk.MetaState()
+		for _, si := range ps.Segments {
+			name := segment.FileName(si)
+			b, ok := s.disk.FileData(name)
+			if !ok {
+				return "bad: " + name + " missing"
+			}
+			sealed := !si.SealTime.IsZero()
+			used := false
+			for _, x := range b {
+				if x != 0 {
+					used = true
+					break
+				}
+			}
+			if !used && !sealed {
+				continue // nothing committed yet
+			}
+			if len(b) < 32 || uint32(b[0])|uint32(b[1])<<8|uint32(b[2])<<16|uint32(b[3])<<24 != 0x58eb6b0d {
+				return "bad: " + name + " has no file header (magic)"
+			}
+			le64 := func(o int) uint64 {
+				var v uint64
+				for k := 7; k >= 0; k-- {
+					v = v<<8 | uint64(b[o+k])
+				}
+				return v
+			}
+			if le64(8) != si.BaseIndex || le64(16) != si.ID || le64(24) != si.Codec {
+				return fmt.Sprintf("bad: %s header says base=%d id=%d codec=%d", name, le64(8), le64(16), le64(24))
+			}
+			commits, covered, bad := readmeWalk(b)
+			if bad != 0 {
+				return fmt.Sprintf("bad: %s commit frame at offset %d does not carry the CRC of its bytes", name, bad)
+			}
+			if sealed {
+				is := int(si.IndexStart)
+				if is < 8 || is > len(b) || b[is-8] != 2 {
+					return fmt.Sprintf("bad: %s sealed with IndexStart=%d but no index frame header precedes it", name, si.IndexStart)
+				}
+				if si.MaxIndex >= si.BaseIndex && uint64(covered) < si.MaxIndex-si.BaseIndex+1 {
+					return fmt.Sprintf("bad: %s sealed up to %d but its commit frames cover %d entries from %d", name, si.MaxIndex, covered, si.BaseIndex)
+				}
+			}
+			_ = commits
+		}
+		return "ok"
 	case "meta":
 		if s.disk == nil {
 			return "n/a"
@@ -256,7 +480,7 @@ func execWalWith(real bool) func(ops []string) []string {
 		defer s.cleanup()
 		out := make([]string, len(ops))
 		for i, op := range ops {
-			out[i] = safeExec(func() string { return s.exec(op) })
+			out[i] = s.timedExec(op)
 		}
 		return out
 	}
@@ -299,9 +523,10 @@ func encLenOf(l *raft.Log) int {
 }
 
 // walMonitor checks, on the real code's outputs only:
-//   C13: after every mutating call the directory holds exactly the files of the
-//        segments meta names; segment IDs are never reused;
-//   C20: counters equal the true totals derived from the API results.
+//
+//	C13: after every mutating call the directory holds exactly the files of the
+//	     segments meta names; segment IDs are never reused;
+//	C20: counters equal the true totals derived from the API results.
 func walMonitor(ops, impl []string) []Violation {
 	var vs []Violation
 	add := func(p, what, detail string, upto int) {
@@ -317,6 +542,13 @@ func walMonitor(ops, impl []string) []Violation {
 	haveLogs, openedOnce := false, false
 	_ = haveLogs
 	for i, op := range ops {
+		if impl[i] == "blocked" {
+			vs = append(vs, Violation{Property: "C05", What: "a call did not return (the reference model answers at once)", Detail: op, Ops: ops[:i+1], Impl: impl[:i+1]})
+			break
+		}
+		if strings.HasPrefix(impl[i], "err dead-after") {
+			break
+		}
 		ws := strings.Fields(op)
 		out := impl[i]
 		if out == "panic" {
@@ -394,9 +626,13 @@ func walMonitor(ops, impl []string) []Violation {
 					tail += atoiU(f[2])
 				}
 			}
+		case "fmtcheck":
+			if strings.HasPrefix(out, "bad:") && !closed {
+				add("C09", "a segment file the meta store names does not have the documented layout", out, i)
+			}
 		case "count": // pseudo-op never emitted
 		case "meta":
-			if out == "n/a" || closed {
+			if out == "n/a" || out == "unsettled" || closed {
 				continue
 			}
 			lastMeta = out
@@ -418,7 +654,7 @@ func walMonitor(ops, impl []string) []Violation {
 				seenIDs[id] = base
 			}
 		case "files":
-			if lastMeta == "" || closed {
+			if lastMeta == "" || out == "unsettled" || closed {
 				continue
 			}
 			var want []string
@@ -463,7 +699,7 @@ type walGen struct {
 }
 
 func (g *walGen) do(op string) string {
-	o := safeExec(func() string { return g.impl.exec(op) })
+	o := g.impl.timedExec(op)
 	g.ops = append(g.ops, op)
 	g.out = append(g.out, o)
 	return o
@@ -522,6 +758,7 @@ func (g *walGen) observe() {
 	}
 	if !g.real {
 		g.do("meta")
+		g.do("fmtcheck")
 	}
 	g.do("files")
 }
@@ -550,8 +787,23 @@ func (g *walGen) step(kind string) {
 		for i := 0; i < n; i++ {
 			toks = append(toks, logTok(g.mkLog(start+uint64(i))))
 		}
+		late := false
+		if r.Chance(1, 4) {
+			g.do("late") // the rotation this append may queue is still pending when the next call arrives
+			g.tags["late-rotation"] = true
+			late = true
+		}
 		if g.do("store "+strings.Join(toks, " ")) == "ok" {
 			g.next = start + uint64(n)
+			if late && r.Chance(1, 2) {
+				// shut down with the rotation still pending, restart twice (the first Open completes the rotation,
+				// the second reads what the first one committed), read the batch back
+				g.do("reopen 1")
+				g.do("reopen 1")
+				g.do(fmt.Sprintf("get %d", start))
+				g.do(fmt.Sprintf("get %d", start+uint64(n)-1))
+				g.tags["late-rotation-two-restarts"] = true
+			}
 		}
 	case "storeGap":
 		g.do("store " + logTok(g.mkLog(g.last+2+uint64(r.Intn(3)))))
@@ -767,10 +1019,21 @@ func genCodecIDCase(r *Rng, id string) *Case {
 	ids := []uint64{1, 1 << 16, 1<<16 + 1, 0xdeadbeefcafe, 0, 2, 65535}
 	created := pick(r, ids)
 	if g.do(fmt.Sprintf("open %d %d", pick(r, []int{1, 300, 4096}), created)) == "ok" {
-		g.step("store3")
-		g.observe()
-		if r.Bool() {
+		// three shapes of directory: never appended to, appended to, emptied again by deleting everything
+		switch shape := r.Intn(4); shape {
+		case 0:
+			g.tags["codec:empty-never-appended"] = true
+		case 1:
 			g.step("store3")
+			g.observe()
+			g.step("delAll")
+			g.tags["codec:emptied"] = true
+		default:
+			g.step("store3")
+			g.observe()
+			if r.Bool() {
+				g.step("store3")
+			}
 		}
 		for k := 0; k < 3; k++ {
 			c := created
